@@ -209,7 +209,9 @@ func (p *c19Prog) render() c19Files {
 
 // ------------------------------------------------------------ generation
 
-var c19Names = []string{"foo", "bar", "baz", "val", "x", "y"}
+// several names are prefixes of others (ba/bar/baz, val/valid, x/x_count,
+// foo/foo2): a rename must match whole identifiers
+var c19Names = []string{"foo", "bar", "baz", "val", "x", "y", "ba", "valid", "x_count", "foo2"}
 var c19Scalars = []string{"int", "int", "string", "bool", "txt", "txt", "Pair"}
 var c19Types = []string{"int", "int", "string", "bool", "txt", "txt", "Pair", "int[]", "txt[]", "map<int>"}
 
